@@ -138,6 +138,17 @@ impl XCompoundSpec {
         Some(ret)
     }
 
+    /// the binding of a freshly constructed instance: a generic parameter that no field (or the
+    /// constructed variant) determines is the bottom type, not a free generic
+    pub(crate) fn complete_bind(&self, mut bind: Bind) -> Bind {
+        for name in self.generic_names.iter() {
+            bind.bound_generics
+                .entry(*name)
+                .or_insert_with(|| X_UNKNOWN.clone());
+        }
+        bind
+    }
+
     fn generics_with_bind(&self, bind: &Bind) -> Vec<Arc<XType>> {
         let mut ret = Vec::new();
         for name in self.generic_names.iter() {
